@@ -1,3 +1,4 @@
+use super::{error::SyntaxError, TokenData};
 use crate::error::*;
 use either::Either;
 use std::{fmt::Display, iter::FromIterator, mem};
@@ -156,7 +157,11 @@ impl<T: Pairable> GenericPair<T> {
         self.pop()
             .map(|item| match item {
                 PairPopItem::Proper(t) => Ok(t),
-                PairPopItem::Improper(_, _) => todo!(),
+                // a dotted form such as (f . x) where a proper list is required
+                PairPopItem::Improper(_, _) => Err(ErrorData::from(SyntaxError::UnexpectedToken(
+                    TokenData::Period,
+                ))
+                .no_locate()),
             })
             .transpose()
     }
